@@ -860,13 +860,29 @@ fn gen_net(rng: &mut Rng, d: usize, sigm: bool) -> (Vec<Layer>, Vec<L>, usize) {
             }
             _ => {}
         }
+        // a head may be followed by further layers on its one-component output (C01 quantifies over all dimension-consistent sequences)
+        if dim == 1 && rng.chance(1, 2) {
+            let h = 1 + rng.below(2);
+            let c = [-1.0, 1.0, 2.0];
+            let m: Vec<Vec<f64>> = (0..h).map(|_| vec![*rng.pick(&c)]).collect();
+            let b: Vec<f64> = (0..h).map(|_| *rng.pick(&[-1.0, 0.0, 1.0])).collect();
+            let a = aff(&m, &b, 1);
+            model.push(L::Lin(xa(&a)));
+            layers.push(Layer::Linear(a));
+            dim = h;
+            if rng.chance(1, 2) {
+                let i = rng.below(dim);
+                layers.push(Layer::ReLU(i));
+                model.push(L::Relu(i));
+            }
+        }
     }
     (layers, model, dim)
 }
 
 pub fn distill(rep: &mut Report, tier: Tier) {
     let cases = if tier == Tier::Quick { 3000 } else { 60000 };
-    rep.rule = "seeded networks: 1-2 linear layers (widths 1-2, weights in {-1,0,1/2,1}) followed per neuron by ReLU / leaky ReLU(1/2) / hard tanh / nothing (hard sigmoid in the last layer only: its sixths are not exactly representable), optional argmax / class head, with no precondition or a polytope precondition (from_poly without else-branch); afftree_from_layers vs the exact network function on the half-integer lattice: equal value inside the precondition, undefined outside, breakpoints and ties included (hard-sigmoid cases compared in f64 with 1e-9 tolerance); non-trivial: network has an activation".into();
+    rep.rule = "seeded networks: 1-2 linear layers (widths 1-2, weights in {-1,0,1/2,1}) followed per neuron by ReLU / leaky ReLU(1/2) / hard tanh / nothing (hard sigmoid in the last layer only: its sixths are not exactly representable), optional argmax / class head (itself optionally followed by a linear layer and a ReLU), with no precondition or a polytope precondition (from_poly without else-branch); afftree_from_layers vs the exact network function on the half-integer lattice: equal value inside the precondition, undefined outside, breakpoints and ties included (hard-sigmoid cases compared in f64 with 1e-9 tolerance); non-trivial: network has an activation".into();
     rep.bound = format!("{cases} seeded networks, input dims in {{1,2}}");
     for idx in 1..=cases as u64 {
         if rep.skip(idx) {
